@@ -417,7 +417,12 @@ class Engine:
     def apply_contract(self, it, c, vals):
         """call site of a function under contract: assert requires, havoc frame, assume ensures"""
         p = it.p
-        m, ci, node, kind = self.find_target(c)
+        tgt = self.find_target(c)
+        if tgt is None:
+            # contract on a third-party function imported into a repository module
+            m = self.repo.module(c.qual.rpartition('.')[0])
+        else:
+            m = tgt[0]
         env = self.spec_env(it, c, m, vals)
         # a contract stated for a constant parameter value only speaks about calls with that value
         for pn, b in c.params.items():
